@@ -59,6 +59,17 @@ def match_known(prop: str, viol: dict, known: list[dict]) -> dict | None:
     return None
 
 
+def raised_in_repo(e: BaseException) -> bool:
+    """did the exception come out of the code under test (a frame of its traceback lies in $VERIF_REPO)?"""
+    repo = str(common.REPO) + os.sep
+    tb = e.__traceback__
+    while tb is not None:
+        if os.path.realpath(tb.tb_frame.f_code.co_filename).startswith(repo):
+            return True
+        tb = tb.tb_next
+    return False
+
+
 OUT = Path(os.environ.get("VERIF_OUT") or VERIF)      # development: redirect evidence/ and replays/ elsewhere
 
 
@@ -119,6 +130,7 @@ def main() -> int:
         total *= 3          # the anchored code differs from the tree the table was made for: sample more (not a verdict)
     results: list[StreamResult] = []
     infra_errors = []
+    crashes: list[dict] = []
     streams = spec["streams"]
     for modname, arg in streams:
         budget = Budget(total / max(1, len(streams)))
@@ -130,7 +142,14 @@ def main() -> int:
         except common.DriverError as e:
             infra_errors.append(f"{modname}: model driver: {e}")
         except Exception as e:
-            infra_errors.append(f"{modname}: {type(e).__name__}: {e}\n{traceback.format_exc()[-1500:]}")
+            if raised_in_repo(e):
+                # the implementation itself raised where the stream (written against the unchanged tree) expects it to work:
+                # the correspondence does not check any more — not an infrastructure problem
+                crashes.append({"what": f"the implementation raised {type(e).__name__} inside stream {modname}/{arg}: {e}",
+                                "detail": {"exception": type(e).__name__, "message": str(e)[:400],
+                                           "traceback": traceback.format_exc()[-2500:]}, "stream": f"{modname}/{arg}"})
+            else:
+                infra_errors.append(f"{modname}: {type(e).__name__}: {e}\n{traceback.format_exc()[-1500:]}")
 
     interp = None
     if args.tier == "thorough" and not args.skip_lean and common.DRIVER_SAMPLES:
@@ -142,7 +161,7 @@ def main() -> int:
             interp = {"error": str(e)}
 
     violations = [dict(v, stream=r.name, stream_module=getattr(r, "module", None)) for r in results for v in r.violations]
-    disagreements = [dict(d, stream=r.name) for r in results for d in r.disagreements]
+    disagreements = [dict(d, stream=r.name) for r in results for d in r.disagreements] + crashes
 
     # ------------------------------------------------------------------ 3. verdict
     known = load_known()
@@ -169,7 +188,10 @@ def main() -> int:
                     (known_hits if k else fresh).append((v, k))
                 searched.append(modname)
             except Exception as e:
-                infra_errors.append(f"search {modname}: {type(e).__name__}: {e}")
+                if raised_in_repo(e):
+                    searched.append(f"{modname} (search stopped: the implementation raised {type(e).__name__}: {str(e)[:200]})")
+                else:
+                    infra_errors.append(f"search {modname}: {type(e).__name__}: {e}")
 
     seen_known = set()
     for v, k in known_hits:
@@ -194,7 +216,7 @@ def main() -> int:
                                    "what": "the property is no longer shown to hold: a proof obligation or the "
                                            "model/implementation correspondence does not check, and no failing input was found",
                                    "proof_failures": proof.get("failures"), "theorem_module": spec["lean"],
-                                   "correspondence_streams": [r.name for r in results if r.disagreements],
+                                   "correspondence_streams": [r.name for r in results if r.disagreements] + [c["stream"] for c in crashes],
                                    "relied_on_by": spec.get("theorems_relying", ""),
                                    "disagreements": disagreements[:5], "searched": searched})
         for d in disagreements[:3]:
